@@ -34,6 +34,18 @@ CHECKS.update({
             'byte position of each EEPROM/1-wire image is corrupted (drawn masks) with validity compared to an independent checksum/CRC verdict. '
             'YAML files round-trip through temp files; deck info, anchor lists, Poly4D and LED timing layouts use reference encoders/decoders.',
             'Memory-port device model and format references are my restatement of the formats; 8-bit-CRC collisions with malformed content are excluded and counted.'),
+    'C18': ('exploration', 'DESIGN.md 3/C18', 'runner',
+            'exhaustive codec enumeration, exhaustive stream compositions for short streams + Hypothesis cuts/sequences, scripted-transport routing, lock-step tunnel over an in-memory socket',
+            'CPX codec is enumerated over every routing combination; the TCP framing is re-assembled under every composition of short streams '
+            'and random cuts of longer ones; CPXRouter.run executes on the harness thread with receivers registering before/during the stream; '
+            'the real TcpDriver threads run over an in-memory socket.',
+            'Stream-socket recv model; queues exist only after the first receivePacket (documented behaviour).'),
+    'C20': ('exploration', 'DESIGN.md 3/C20', 'fakeradio',
+            'Hypothesis URI grammar against a reference parser; real radio stack over a fake USB dongle (settings per transmission); scan worlds; per-class scheme claims; open_link event oracle',
+            'Well-formed radio URIs are generated from the grammar and compared with an independent parser, then driven through the real '
+            'RadioDriver/RadioManager/Crazyradio stack onto a fake dongle; scans run against generated worlds; every URI is offered to every '
+            'driver class; malformed/unknown URIs go through a real Crazyflie.open_link.',
+            'Fake dongle models the vendor requests the driver uses; pyserial/prrt absent in this image.'),
 })
 
 ALL = ['C%02d' % i for i in range(1, 21)]
